@@ -2,6 +2,7 @@ package dicescript
 
 import (
 	"errors"
+	"sort"
 
 	"golang.org/x/exp/rand"
 )
@@ -137,33 +138,45 @@ func funcArrayPush(ctx *Context, this *VMValue, params []*VMValue) *VMValue {
 	return this
 }
 
+// sortedDictKeys 返回排序后的键: Range 的顺序是随机的(go map)，keys/values/items 需要稳定的顺序
+func sortedDictKeys(d *DictData) []string {
+	var keys []string
+	d.Dict.Range(func(key string, value *VMValue) bool {
+		keys = append(keys, key)
+		return true
+	})
+	sort.Strings(keys)
+	return keys
+}
+
 func funcDictKeys(ctx *Context, this *VMValue, params []*VMValue) *VMValue {
 	d := this.MustReadDictData()
 	var arr []*VMValue
-	d.Dict.Range(func(key string, value *VMValue) bool {
+	for _, key := range sortedDictKeys(d) {
 		arr = append(arr, NewStrVal(key))
-		return true
-	})
+	}
 	return NewArrayValRaw(arr)
 }
 
 func funcDictValues(ctx *Context, this *VMValue, params []*VMValue) *VMValue {
 	d := this.MustReadDictData()
 	var arr []*VMValue
-	d.Dict.Range(func(key string, value *VMValue) bool {
-		arr = append(arr, value)
-		return true
-	})
+	for _, key := range sortedDictKeys(d) {
+		if value, ok := d.Dict.Load(key); ok {
+			arr = append(arr, value)
+		}
+	}
 	return NewArrayValRaw(arr)
 }
 
 func funcDictItems(ctx *Context, this *VMValue, params []*VMValue) *VMValue {
 	d := this.MustReadDictData()
 	var arr []*VMValue
-	d.Dict.Range(func(key string, value *VMValue) bool {
-		arr = append(arr, NewArrayVal(NewStrVal(key), value))
-		return true
-	})
+	for _, key := range sortedDictKeys(d) {
+		if value, ok := d.Dict.Load(key); ok {
+			arr = append(arr, NewArrayVal(NewStrVal(key), value))
+		}
+	}
 	return NewArrayValRaw(arr)
 }
 
